@@ -94,7 +94,11 @@ struct Report {
   void Count(const std::string& k, long n = 1) { counters[k] += n; }
 
   // A property-level disagreement.  `what` names the failing comparison, `witness` is the replayable case.
-  void Violation(const std::string& property, const std::string& what, const json& witness, const json& detail = json()) {
+  // --as <id>: the same comparisons serve another property (e.g. the compact encoding is how a model document stores values:
+  // its round trip is part of "save / load is lossless"); violations and drift are then reported under that property
+  static std::string& Relabel() { static std::string s; return s; }
+  void Violation(const std::string& propertyIn, const std::string& what, const json& witness, const json& detail = json()) {
+    const std::string& property = Relabel().empty() ? propertyIn : Relabel();
     ++nViolations;
     auto& k = violationKinds[property + "|" + what];
     ++k;
@@ -359,6 +363,7 @@ inline int Main(int argc, char** argv, const Handler& h, bool isolated = false, 
   if (args.has("in")) { fin.open(args.get("in")); in = &fin; }
   if (args.has("tlclog")) OtherSink().open(args.get("tlclog"));
   if (args.has("sample")) SampleEvery() = args.num("sample", 1);
+  if (args.has("as")) Report::Relabel() = args.get("as");
   if (args.has("batch")) iso.batch = static_cast<size_t>(args.num("batch", 2000));
   if (isolated && !args.has("no-isolate")) RunIsolated(*in, h, rep, iso); else RunStream(*in, h, rep);
   rep.Write(args.get("out"));
